@@ -364,9 +364,12 @@ class Consumer(object):
                 return
 
             self._shutdown_d, d = None, self._shutdown_d
-            self.stop()
+            if not self._stopping:
+                # (when stop() itself cancelled the commit it is already running)
+                self.stop()
             self._shuttingdown = False  # Shutdown complete
-            d.errback(failure)
+            if d is not None:
+                d.errback(failure)
 
         def _in_progress_commit_done(result):
             """The commit we were waiting for completed, or stop() cancelled the wait"""
@@ -382,6 +385,9 @@ class Consumer(object):
 
         def _commit_and_stop(result):
             """Commit the current offsets (if needed) and stop the consumer"""
+            if self._stopping or self._start_d is None:
+                # stop() was called while we waited: it ends the shutdown
+                return
             if not self.consumer_group:  # No consumer group, no committing
                 return _handle_shutdown_commit_success(None)
 
@@ -476,6 +482,12 @@ class Consumer(object):
         self._start_d, d = None, self._start_d
         if not d.called:
             d.callback(self._last_processed_offset)
+
+        # If a graceful shutdown() was under way it is over now
+        if self._shutdown_d is not None:
+            self._shutdown_d, shutdown_d = None, self._shutdown_d
+            self._shuttingdown = False
+            shutdown_d.errback(Failure(CancelledError()))
 
         # Return the offset of the message we last processed.
         return self._last_processed_offset
